@@ -128,7 +128,8 @@ def run(pid, path, quiet=False):
                         or st['after'] != int(m_after):
                     report.violations.append(('pull history still differs', payload))
                     break
-        elif pid == 'C04':
+        elif pid == 'C04' or 'pool' in case:
+            # (a pool of queries with a history: C04, and the shared-expression pools of C19)
             res = props_q2.c04_impl((case, {'caching': (False, True)}))
             print(json.dumps(res, default=str)[:2000])
             for key, run_ in res.get('runs', {}).items():
